@@ -12,6 +12,9 @@ CHECKS = {
  'C02': ('E1 state-graph + E2 choice-tree', 'explicit-state exploration of all op sequences (SetStrictRanges/SetConstraints interleaved with Step) per solver and (tight,clip) mode, special boxes, plus exhaustive enumeration of every random answer of the clip=False re-entry and of the initial-point generators',
          'Every call the recorded cost function receives while a box is in force is checked against the box the harness knows to be current, over all histories <= depth 4/5 of a 6-op alphabet x 4 solvers x 7 range modes, over degenerate / one-sided / None / negative boxes, over every answer (within a deviation bound) of the random draws made by the randomising bounds constraint, and over every draw of SetRandomInitialPoints / SetInitialPoints.',
          'DE under clip=False uses a seeded private generator; an exception raised while installing ranges is recorded, not judged; best-inside-box judged for configurations unchanged since before the first iteration', '3/C02'),
+ 'C03': ('E1 state-graph', 'explicit-state exploration of every (configuration, installation time, stop point) history on real solvers with instrumented pure/in-place constraints: every recorded cost call after installation judged against a harness-owned copy of the constraint, every stop judged for c(best)==best and the recomputed energy, pure and in-place variants compared bit for bit',
+         'For each solver x constraint kind (pin, clamp, round, tie, symbolic; pure and in-place) x box/mode (all but clip=False) x cost x start, every schedule of the alphabet is executed: configured before the first Step, installed by SetConstraints after k in {0,1,2,3} Steps, installed on a run stopped by a limit and continued, replacing another live constraint; stops at every Step boundary of an 8 (12) step run and by maxiter/maxfun in {1,2,3,5}.',
+         'constraints restricted to deterministic idempotent ones that map the box into itself (mechanically pre-checked); best after a mid-run installation and populations are evidence only; a Nelder-Mead pure/in-place divergence explained by the documented aliasing rule is counted, anything else raised', '3/C03'),
  'C08': ('E3 + E2 choice-tree', 'lock-step comparison with reference models over a complete grid (NM/Powell) and exhaustive enumeration of every answer of sample/randrange/random() for every DE strategy call (complete tree) and whole generations (deviation bound 2)',
          'Nelder-Mead and Powell solvers are stepped iteration by iteration against independent reference implementations (textbook NM; direction-set loop around the same Brent search) over a cost x start x tolerance x maxiter grid with all NM branches and exact ties exercised, fmin/fmin_powell against scipy.optimize.fmin and the vendored scipy-0.6 routines; every DE trial is decoded from an encoded population under every scripted random answer and judged by the strategy definition; selection judged strictly.',
          'random() answers from {0, CR, 0.999}; four *Bin strategies judged under either crossover rule (DESIGN section 5); Powell stop rule (gtol=2) differences recorded, not judged', '3/C08'),
